@@ -163,7 +163,7 @@ pub fn mutate_tree(v: &mut J, t: &mut Tape) -> String {
             if let Some(n) = get_mut(v, &path) {
                 match n {
                     J::Number(_) => {
-                        *n = [json!(-1), json!(0), json!(1000000), json!(-2147483648i64), json!(4294967296i64), json!(1.5)][t.pick(6)].clone()
+                        *n = [json!(-1), json!(0), json!(1000000), json!(-2147483648i64), json!(4294967296i64), json!(1.5), json!(2147483647), json!(2147483646), json!(1e39), json!(-1e39), json!(1e-50), json!(-0.0), json!(9007199254740993i64), json!(u64::MAX)][t.pick(14)].clone()
                     }
                     J::String(s) => {
                         let variants = [
